@@ -1,4 +1,4 @@
-PENDING.update({k: "check not built yet at this commit (planned, see DESIGN.md section 5)" for k in ["C07","C10","C11","C12","C18","C20"]})
+PENDING.update({k: "check not built yet at this commit (planned, see DESIGN.md section 5)" for k in ["C07","C10","C11","C18","C20"]})
 check("C01", "exploration",
   "Seeded search: every run executes one (generated variant, operation, variables, resolver-outcome plan, release order) of servers generated at check time from /repo's templates, with each resolver/directive call parked and released by the scheduler, and compares data (key order kept) and the error multiset with an independent reference executor. Sampling, not proof; right level because the property is a refinement claim over an unbounded input space.",
   "Probe schemas instead of random schemas; reference executor + plan are the trusted model (parameters P1/P2 documented in DESIGN 3.5); gqlgen-authored messages matched by path only.",
@@ -27,3 +27,7 @@ check("C15", "exploration",
   "Request histories over a small alphabet (4 texts x 7 request forms, POST and GET) against handler.Server+APQ with a harness cache that parks, evicts and drops; sequential histories are checked step by step against a 3-line model, overlapped ones with porcupine (linearizability against the same model), plus the invariant that every cache entry's key is the SHA-256 of its value.",
   "The model treats PersistedQueryNotFound as always legal for hash-only requests (eviction); porcupine timeouts are exit 2.",
   "deterministic simulation: history search + porcupine linearizability against a reference model", "5.15")
+check("C12", "exploration",
+  "Streamed responses (SSE with keep-alive intervals down to 2us; multipart/mixed with delivery timeouts 1-50ms) are produced under seeded interleavings of payload production, timer ticks on the fake clock, slow-client writes (split at a seeded byte and parked) and disconnects; the raw bytes are parsed by a strict SSE parser / mime/multipart + strict JSON and compared, exactly-once and in order, with the payloads recorded by an innermost response interceptor; a Write entering while another is in progress is a violation; -race binary.",
+  "net/http's server loop is not in the simulation (ServeHTTP is called directly on a simulated ResponseWriter); transport mutexes are replaced by durable channel mutexes in the scratch copy.",
+  "deterministic simulation: fake-clock timing search with slow/disconnecting client faults + strict stream parsers", "5.12")
